@@ -102,6 +102,18 @@ impl Module {
     self.symbols.iter()
   }
 
+  /// The symbols of this module by name in a stable order
+  #[cfg(feature = "verif")]
+  pub fn verif_symbols(&self) -> Vec<(String, Value)> {
+    let mut symbols: Vec<(String, Value)> = self
+      .symbols_by_name
+      .iter()
+      .map(|(name, id)| (name.to_string(), self.symbols[*id]))
+      .collect();
+    symbols.sort_by(|a, b| a.0.cmp(&b.0));
+    symbols
+  }
+
   /// A module iterator
   pub fn modules(&self) -> hash_map::Iter<'_, LyStr, Ref<Module>> {
     self.modules.iter()
